@@ -24,67 +24,73 @@ ENTRY_POINTS = [
 TOKENIZER_CALLERS = {"simfile.base:BaseSimfile.__init__", "simfile.ssc:SSCChart.from_str", DETECT}
 
 
+def exhausted(s_) -> bool:
+    """The path on which the token stream had no parameter at all: `x = next(it, <sentinel>)` answered the sentinel.  The load-time normal form
+    turns `try: x = next(it) / except StopIteration:` into that shape with the sentinel __EXHAUSTED__; `next(it, None)` followed by `x is None`
+    is the same test for a stream that never holds None (the tokenizer yields MSDParameter objects)."""
+    from ..normalize import EXHAUSTED
+    for k, v in s_.plain_assign().items():
+        if v is not True:
+            continue
+        if EXHAUSTED in k:
+            return True
+        if k.startswith("None is "):
+            nm = k[len("None is "):]
+            for e in s_.effects:
+                if e.kind == "bind" and isinstance(e.target, ast.Name) and e.target.id == nm and isinstance(e.value, ast.Call) and isinstance(e.value.func, ast.Name) and e.value.func.id == "next" \
+                        and len(e.value.args) == 2 and isinstance(e.value.args[1], ast.Constant) and e.value.args[1].value is None:
+                    return True
+    return False
+
+
 def rewind(ctx: Ctx) -> None:
-    """R-REWIND: a caller-owned stream that was handed to the tokenizer is rewound before it is returned."""
+    """R-REWIND: a caller-owned stream that was handed to the tokenizer is rewound before it is returned (path effects: the stream is *owned*
+    until the parameter is re-bound, *consumed* once parse_msd(file=<it>) ran, *rewound* by <it>.seek(0))."""
+    from .tables import sums_of as tsums
     p = ctx.p
     fi = p.func(DETECT)
-    cfg = ctx.cfg(fi)
     sp = fi.param_names()[0]  # the stream parameter
-    consume_nodes: Set[int] = set()
-    for c in calls(fi):
-        if callee_name(ctx, fi, c).endswith("parse_msd"):
-            for k in c.keywords:
-                if k.arg == "file" and isinstance(k.value, ast.Name) and k.value.id == sp:
-                    consume_nodes.add(cfg_node_of(cfg, fi, c))
-    ctx.floor("in-place peeks of the caller's stream", len(consume_nodes), 1)
-    seek_nodes: Set[int] = set()
-    for c in method_calls(fi, "seek"):
-        if isinstance(c.func.value, ast.Name) and c.func.value.id == sp and len(c.args) == 1 and try_ev(ctx, fi, c.args[0]) == 0:
-            seek_nodes.add(cfg_node_of(cfg, fi, c))
-    rebind_nodes: Set[int] = set()
-    for b in locals_of(fi).b.get(sp, []):
-        if b.kind != "param":
-            rebind_nodes.add(cfg_node_of(cfg, fi, b.node))
-    pe = PathEnumerator(cfg, atoms=True, follow_exc=True, limit=20000)
-    total = 0
-    bad_paths: List[List[int]] = []
-    exempt = 0
-    for r in pe.paths():
-        if r.end != cfg.exit:
+    sums = tsums(ctx, fi)
+    total = n_consume = exempt = 0
+    bad = []
+    for s_ in sums:
+        if s_.end == "raise":
             continue
         total += 1
-        state = "fresh"
-        owned = True
-        through_stop = False
-        for n in r.nodes:
-            node = cfg.nodes[n]
-            if node.kind == "except":
-                h = node.ast
-                if isinstance(h, ast.ExceptHandler) and isinstance(h.type, ast.Name) and h.type.id == "StopIteration":
-                    through_stop = True
-            if n in rebind_nodes:
+        owned, state = True, "fresh"
+        for e in s_.effects:
+            if e.kind in ("bind", "for", "with") and e.target is not None and any(isinstance(x, ast.Name) and x.id == sp for x in ast.walk(e.target if e.kind != "with" else (e.value or e.target))) and e.kind != "with":
+                # the tokenizer call of this very statement still sees the old object
+                if isinstance(e.value, ast.AST) and owned:
+                    for c in [n for n in ast.walk(e.value) if isinstance(n, ast.Call)]:
+                        if callee_name(ctx, fi, c).endswith("parse_msd") and any(k.arg == "file" and isinstance(k.value, ast.Name) and k.value.id == sp for k in c.keywords):
+                            state = "consumed"
                 owned = False
-            if owned and n in consume_nodes:
-                state = "consumed"
-            if owned and n in seek_nodes and state == "consumed":
-                state = "rewound"
-        last = cfg.nodes[r.nodes[-2]] if len(r.nodes) >= 2 else None
-        returns_stream = last is not None and isinstance(last.ast, ast.Return) and last.ast.value is not None and any(
-            isinstance(x, ast.Name) and x.id == sp for x in ast.walk(last.ast.value))
+                continue
+            for x in (e.value, e.target):
+                if not isinstance(x, ast.AST):
+                    continue
+                for c in [n for n in ast.walk(x) if isinstance(n, ast.Call)]:
+                    if owned and callee_name(ctx, fi, c).endswith("parse_msd") and any(k.arg == "file" and isinstance(k.value, ast.Name) and k.value.id == sp for k in c.keywords):
+                        state = "consumed"
+                        n_consume += 1
+                    if owned and state == "consumed" and isinstance(c.func, ast.Attribute) and c.func.attr == "seek" and isinstance(c.func.value, ast.Name) and c.func.value.id == sp \
+                            and len(c.args) == 1 and try_ev(ctx, fi, c.args[0]) == 0:
+                        state = "rewound"
+        k_, v_ = s_.terminal()
+        returns_stream = k_ == "return" and v_ is not None and any(isinstance(x, ast.Name) and x.id == sp for x in ast.walk(v_))
         if owned and state == "consumed" and returns_stream:
-            if through_stop:
+            if exhausted(s_):
                 exempt += 1  # no parameter at all: re-reading from any position yields none either
             else:
-                bad_paths.append(r.nodes)
-    if bad_paths:
-        path = bad_paths[0]
-        assign = {k[1:]: v for k, v in {}.items()}
+                bad.append(s_)
+    ctx.floor("in-place peeks of the caller's stream (paths)", n_consume, 1)
+    if bad:
         ctx.bad("R-REWIND", fi, f"stream '{sp}' consumed by the peek is returned without seek(0)",
-                f"{len(bad_paths)} of {total} enumerated paths hand the caller's stream on consumed: the simfile then loads empty",
-                node=fi.node, path=cfg.describe_path(path))
+                f"{len(bad)} of {total} paths hand the caller's stream on consumed: the simfile then loads empty; e.g. under {dict(bad[0].plain_assign())}", node=fi.node)
     else:
         ctx.ok("R-REWIND", fi, f"stream '{sp}' consumed by the peek is rewound on every path that returns it",
-               f"{total} paths (predicate atoms enumerated), {exempt} through the StopIteration exit (no parameter: exempt)", node=fi.node)
+               f"{total} paths, {exempt} on which the stream held no parameter (exempt)", node=fi.node)
     ctx.floor("paths through _detect_ssc", total, 4)
     # the non-seekable branch works on a copy: the returned object is a fresh StringIO, never the consumed iterator
     tees = [c for c in calls(fi) if callee_name(ctx, fi, c).endswith("itertools.tee")]
@@ -134,11 +140,12 @@ def dispatch(ctx: Ctx) -> None:
     nx = [c for c in calls(fi) if isinstance(c.func, ast.Name) and c.func.id == "next"]
     ctx.expect("R-TABLE", fi, "the peek reads exactly the first parameter", len(nx) == 1, f"{len(nx)} next() call(s)", f"{len(nx)} next() calls", node=fi.node)
     # empty stream -> SM
-    for h in [n for n in body_walk(fi.node) if isinstance(n, ast.ExceptHandler)]:
-        if isinstance(h.type, ast.Name) and h.type.id == "StopIteration":
-            rr = [x for st in h.body for x in walk_no_nested(st) if isinstance(x, ast.Return)]
-            ok = bool(rr) and isinstance(rr[0].value, ast.Tuple) and try_ev(ctx, fi, rr[0].value.elts[1]) is False
-            ctx.expect("R-TABLE", fi, "a text without parameters is SM", ok, "", "", node=h)
+    ex = [s_ for s_ in tsums(ctx, fi) if exhausted(s_) and s_.end != "raise"]
+    outs = set()
+    for s_ in ex:
+        k_, v_ = s_.terminal()
+        outs.add(ast.unparse(v_.elts[1]) if k_ == "return" and isinstance(v_, ast.Tuple) and len(v_.elts) == 2 else f"{k_} {ast.unparse(v_) if v_ is not None else ''}")
+    ctx.expect("R-TABLE", fi, "a text without parameters is SM", bool(ex) and outs == {"False"}, f"{len(ex)} paths", f"on the paths where the stream holds no parameter the answer is {sorted(outs)}", node=fi.node)
     # load: class choice from the detection result, parsing the stream the detection returned
     fl = p.func(LOAD)
     from .tables import function_decs as _fd, judge as _tj, sums_of as _ts, closed as _cl
@@ -171,6 +178,8 @@ def _fallback(ctx: Ctx, fi: FunctionInfo, decs) -> None:
             continue
         if not any(e.kind == "bind" and e.value is not None and "next(" in ast.unparse(e.value) for e in d.src.effects):
             continue  # answered before the first parameter was read: not the fallback (judged by the suffix table)
+        if exhausted(d.src):
+            continue  # no parameter at all (judged by 'a text without parameters is SM')
         k_, v = d.src.terminal()
         seen_fb += 1
         shown = ast.unparse(v) if v is not None else "None"
